@@ -9,6 +9,7 @@ import (
 	"strings"
 
 	"golang.org/x/tools/go/packages"
+	"golang.org/x/tools/go/ssa"
 )
 
 // Val is an extracted compile-time value:
@@ -46,6 +47,15 @@ type ListV struct {
 	Elems []Val
 	Poss  []token.Pos
 }
+
+// FuncV: a function value named in a table (a package-level function or a method expression T.m; the latter takes the
+// receiver as its first argument, as the method's SSA function does).
+type FuncV struct {
+	F  *types.Func
+	Fn *ssa.Function
+}
+
+func (v *FuncV) vstr() string { return "func:" + v.F.FullName() }
 
 func (v *CVal) vstr() string {
 	if v.c != nil {
@@ -216,6 +226,11 @@ func (ev *evaluator) eval(p *packages.Package, e ast.Expr) (Val, error) {
 		return ev.eval(p, x.X)
 	case *ast.Ident:
 		obj := info.Uses[x]
+		if f, ok := obj.(*types.Func); ok {
+			if sf := ev.c.Prog.FuncValue(f); sf != nil {
+				return &FuncV{F: f, Fn: sf}, nil
+			}
+		}
 		if v, ok := obj.(*types.Var); ok && v.Parent() == v.Pkg().Scope() {
 			init, ip := ev.c.varInit(v)
 			if init == nil {
@@ -226,6 +241,18 @@ func (ev *evaluator) eval(p *packages.Package, e ast.Expr) (Val, error) {
 		return nil, fmt.Errorf("identifier %s is not a constant or package-level variable", x.Name)
 	case *ast.SelectorExpr:
 		obj := info.Uses[x.Sel]
+		if f, ok := obj.(*types.Func); ok {
+			sel, isSel := info.Selections[x]
+			// pkg.Func, or a method expression T.m on a concrete type without embedding in between
+			if !isSel || (sel.Kind() == types.MethodExpr && len(sel.Index()) == 1 && !types.IsInterface(sel.Recv())) {
+				if sf := ev.c.Prog.FuncValue(f); sf != nil {
+					if !isSel || types.Identical(sel.Recv(), f.Type().(*types.Signature).Recv().Type()) {
+						return &FuncV{F: f, Fn: sf}, nil
+					}
+				}
+			}
+			return nil, fmt.Errorf("function value %s is not a plain function or method expression", x.Sel.Name)
+		}
 		if v, ok := obj.(*types.Var); ok && !v.IsField() && v.Parent() == v.Pkg().Scope() {
 			init, ip := ev.c.varInit(v)
 			if init == nil {
@@ -267,6 +294,37 @@ func (ev *evaluator) eval(p *packages.Package, e ast.Expr) (Val, error) {
 				return &CVal{V: vv.V, T: tv.Type, c: ev.c}, nil
 			}
 			return v, nil
+		}
+		// a call of a repo function with evaluable arguments and one result (a constructor in a table): folded
+		var callee *types.Func
+		switch f := x.Fun.(type) {
+		case *ast.Ident:
+			callee, _ = info.Uses[f].(*types.Func)
+		case *ast.SelectorExpr:
+			if _, isSel := info.Selections[f]; !isSel {
+				callee, _ = info.Uses[f.Sel].(*types.Func)
+			}
+		}
+		if callee != nil && !x.Ellipsis.IsValid() {
+			sf := ev.c.Prog.FuncValue(callee)
+			sig := callee.Type().(*types.Signature)
+			if sf != nil && ev.c.isRepoFunc(sf) && sig.Results().Len() == 1 && !sig.Variadic() && sig.Recv() == nil {
+				var as []fval
+				for _, a := range x.Args {
+					v, err := ev.eval(p, a)
+					if err != nil {
+						return nil, err
+					}
+					as = append(as, fromVal(v))
+				}
+				r, err := ev.c.newFolder().foldCall(sf, as)
+				if err != nil {
+					return nil, fmt.Errorf("call %s does not fold: %v", types.ExprString(x.Fun), err)
+				}
+				if v, ok := toVal(r, sig.Results().At(0).Type(), ev.c); ok {
+					return v, nil
+				}
+			}
 		}
 		return nil, fmt.Errorf("call %s is not evaluable", types.ExprString(x.Fun))
 	case *ast.CompositeLit:
@@ -340,16 +398,40 @@ func (ev *evaluator) composite(p *packages.Package, x *ast.CompositeLit, t types
 			et = u.(*types.Array).Elem()
 		}
 		lv := &ListV{T: t}
+		// elements may carry an index (`[...]T{C: 0, D: 2}`): the next element follows the last index, gaps hold zero values
+		next := 0
+		place := func(i int, v Val, pos token.Pos) {
+			for len(lv.Elems) <= i {
+				lv.Elems = append(lv.Elems, ev.zero(et))
+				lv.Poss = append(lv.Poss, x.Pos())
+			}
+			lv.Elems[i], lv.Poss[i] = v, pos
+		}
 		for _, el := range x.Elts {
 			if kv, ok := el.(*ast.KeyValueExpr); ok {
-				el = kv.Value // indexed literals: order as written
+				tv, has := p.TypesInfo.Types[kv.Key]
+				if !has || tv.Value == nil || tv.Value.Kind() != constant.Int {
+					return nil, fmt.Errorf("element index is not a constant")
+				}
+				i, _ := constant.Int64Val(tv.Value)
+				if i < 0 || i > 1<<16 {
+					return nil, fmt.Errorf("element index %d out of range", i)
+				}
+				next = int(i)
+				el = kv.Value
 			}
 			v, err := ev.evalElem(p, el, et)
 			if err != nil {
 				return nil, err
 			}
-			lv.Elems = append(lv.Elems, v)
-			lv.Poss = append(lv.Poss, el.Pos())
+			place(next, v, el.Pos())
+			next++
+		}
+		if at, ok := u.(*types.Array); ok && at.Len() >= 0 && at.Len() <= 1<<16 {
+			for int64(len(lv.Elems)) < at.Len() {
+				lv.Elems = append(lv.Elems, ev.zero(et))
+				lv.Poss = append(lv.Poss, x.Pos())
+			}
 		}
 		return lv, nil
 	}
